@@ -78,7 +78,7 @@ def judge(prog: Any, ref: Any, run: dict[str, Any], info: dict[str, Any]) -> lis
                 problems.append(("execution-count-differs", f"task executions (sweep-free, with sweeps): {diff}", "exec-count"))
     for x in check_ledger_unique(run["h"], "C10"):
         problems.append(("step-executed-twice", x["msg"], "dup-exec"))
-    return one_violation("C10", problems, run["h"])
+    return one_violation("C10", problems, run["h"], ref["h"] if ref else None)
 
 
 def judge_crash(prog: Any, ref: Any, run: dict[str, Any], info: dict[str, Any]) -> list[dict[str, Any]]:
